@@ -102,6 +102,21 @@ class Replayer:
         return {"score": quantise(tr.get_score()), "ret": self.B.ret_to_spec(tr.get_retval()),
                 "leaves": self.B.leaves(prog, (), tr.get_choices())}
 
+    def recorded_arg(self, prog, tr):
+        """the model argument recorded in a top-level Fn trace (None when the trace type does not record (args, kwargs))."""
+        if self.B.kind(prog) != "fn":
+            return None
+        try:
+            a = tr.get_args()
+            if isinstance(a, tuple) and len(a) == 2 and isinstance(a[1], dict):
+                if "arg" in a[1]:
+                    return self.B.ret_to_spec(a[1]["arg"])
+                if len(a[0]) == 2:
+                    return self.B.ret_to_spec(a[0][1])
+        except Exception:
+            return None
+        return None
+
     # ------------------------------------------------------------------------------------------------
     def replay_state(self, prog, hist):
         """Replay the last operation of `hist` (earlier ones come from the cache). Returns list of mismatch strings."""
@@ -110,7 +125,10 @@ class Replayer:
         if len(hist) > 1:
             if hk not in self.cache:
                 # replay the prefix first (states are normally processed in order of depth)
-                self.replay_state(prog, hist[:-1])
+                _, pbad = self.replay_state(prog, hist[:-1])
+                if hk not in self.cache:
+                    return (f"{hist[-1]['op']}|prog={prog}|" + self.op_key(hist),
+                            [f"the preceding operations could not be replayed: {pbad[:2]}"])
             prev = self.cache[hk]
         else:
             prev = None
@@ -129,6 +147,9 @@ class Replayer:
                 bad.append(f"score {obs['score']} expected {exp['score']} (ln2 units)")
             if spec_val(obs["ret"]) != spec_val(exp["ret"]):
                 bad.append(f"retval {obs['ret']} expected {exp['ret']}")
+            rec = self.recorded_arg(prog, tr)
+            if rec is not None and spec_val(rec) != spec_val(exp["arg"]):
+                bad.append(f"the trace records arguments {rec}, the operation was run with {exp['arg']}")
             if kind != "simulate" and w is not None and quantise(w) != op["w"]:
                 bad.append(f"weight {quantise(w)} expected {op['w']} (ln2 units)")
             # assess / log_density of the trace's own choices under its recorded arguments (coherence, C01/C05)
